@@ -1,5 +1,5 @@
 #!/bin/bash
-# usage: tools/mutmatrix.sh [tier] [Cxx ...]
+# usage: tools/mutmatrix.sh [tier] [Cxx | Cxx-mN ...]
 # Runs every stored seeded change (seeded/<Cxx>-m<n>/patch.diff) through the check of its property on a scratch copy of
 # /repo (tools/mutcheck.sh) and records the outcome in seeded/<Cxx>-m<n>/detected.json.  Properties run in parallel
 # (VERIF_PAR, default 4), the changes of one property one after the other.  Never touches /repo.
@@ -8,8 +8,9 @@ tier=${1:-quick}; shift
 props=${*:-$(ls seeded | sed 's/-m.*//' | sort -u)}
 par=${VERIF_PAR:-4}
 one() {
-  p=$1
-  for d in seeded/$p-m*; do
+  p=$1; dirs="seeded/$p-m*"
+  case "$p" in *-m*) dirs="seeded/$p"; p=${p%%-m*};; esac      # a single seed id (C07-m5) instead of a property
+  for d in $dirs; do
     [ -f $d/patch.diff ] || continue
     # a change can break a second property too: seeded/<id>/checks lists the properties whose checks are run (default: its own)
     props=$p; [ -f $d/checks ] && props=$(cat $d/checks)
